@@ -656,8 +656,79 @@ func c14CondClosures(c *core.Ctx) {
 	c.NontrivialStr("cond|" + strings.Join(log, ";"))
 }
 
+// c14Args: "returns that closure's result" - and the closure can only give the caller's answer if it is asked the caller's
+// question. A marshal closure is handed the arguments as the caller spelled them (one slice is ONE argument); an equality
+// closure is handed the very comparand the caller passed (an alias stays an alias, a pointer a pointer).
+func c14Args(c *core.Ctx) {
+	r := c.Rng
+	mErr, eErr := errors.New("marshal closure"), errors.New("equality closure")
+	var got []any
+	called := 0
+	s := NewStack(Kinds[r.Intn(5)], 0).Push("e")
+	s.SetMarshaler(func(in ...any) error { called++; got = in; return mErr })
+	row := []any{"AND", "a", "b"}
+	type call struct {
+		name string
+		args []any
+	}
+	for _, k := range []call{{"Marshal(one slice of three)", []any{row}}, {"Marshal(one empty slice)", []any{[]any{}}}, {"Marshal(one slice holding one empty slice)", []any{[]any{[]any{}}}},
+		{"Marshal(label, value)", []any{"AND", "x"}}, {"Marshal(one string)", []any{"x"}}, {"Marshal(slice, slice)", []any{row, row}}} {
+		called, got = 0, nil
+		var err error
+		if p, msg, site := Guard(func() { err = s.Marshal(k.args...) }); p {
+			c.Violatef("panic:"+site+":closure-arguments", map[string]any{"call": k.name}, "%s with a marshal closure installed panicked: %s", k.name, msg)
+			return
+		}
+		ok := called == 1 && err == mErr && len(got) == len(k.args)
+		for i := 0; ok && i < len(got); i++ {
+			ga, isSl := got[i].([]any)
+			wa, wSl := k.args[i].([]any)
+			if isSl != wSl || (isSl && len(ga) != len(wa)) || (!isSl && got[i] != k.args[i]) {
+				ok = false
+			}
+		}
+		if !ok {
+			c.Violatef("marshal-closure-arguments", map[string]any{"call": k.name}, "%s: closure consulted %d time(s) with %d argument(s) %s, result %v; expected once, with the caller's %d argument(s) as given, and its error returned", k.name, called, len(got), showList(got), err, len(k.args))
+			return
+		}
+	}
+	var gotA, gotB any
+	o := stackage.And().Push("o")
+	ao := AStack(o)
+	s.SetEqualityPolicy(func(a, b any) error { gotA, gotB = a, b; return eErr })
+	for _, comparand := range []any{o, ao, &o, &ao} {
+		gotA, gotB = nil, "unset"
+		err := s.IsEqual(comparand)
+		if err != eErr || reflect.TypeOf(gotB) != reflect.TypeOf(comparand) {
+			c.Violatef("equality-closure-arguments", map[string]any{"comparand": fmt.Sprintf("%T", comparand)}, "Stack.IsEqual(%T) with an equality closure installed returned %v and handed the closure a %T as second argument", comparand, err, gotB)
+			return
+		}
+		if _, isStack := gotA.(stackage.Stack); !isStack {
+			c.Violatef("equality-closure-arguments", map[string]any{"comparand": fmt.Sprintf("%T", comparand)}, "Stack.IsEqual handed the closure a %T as first argument", gotA)
+			return
+		}
+	}
+	cd := stackage.Cond("k", stackage.Eq, "v")
+	oc := stackage.Cond("k", stackage.Eq, "v")
+	aoc := ACond(oc)
+	cd.SetEqualityPolicy(func(a, b any) error { gotA, gotB = a, b; return eErr })
+	for _, comparand := range []any{oc, aoc, &oc, &aoc} {
+		gotA, gotB = nil, "unset"
+		err := cd.IsEqual(comparand)
+		if err != eErr || reflect.TypeOf(gotB) != reflect.TypeOf(comparand) {
+			c.Violatef("cond:equality-closure-arguments", map[string]any{"comparand": fmt.Sprintf("%T", comparand)}, "Condition.IsEqual(%T) with an equality closure installed returned %v and handed the closure a %T as second argument", comparand, err, gotB)
+			return
+		}
+	}
+	c.Count("closure-argument-checks")
+}
+
 func c14Run(c *core.Ctx, idx int) {
 	p, _ := c14Tier(c.Tier)
+	if idx%200 == 100 {
+		c14Args(c)
+		return
+	}
 	if idx < p {
 		c14Push(c)
 	} else {
